@@ -113,6 +113,11 @@ class Facts:
             tree = ast.parse(src, filename=path)
         except SyntaxError as e:
             raise AnalysisError('cannot parse %s: %s' % (path, e))
+        # positional-only parameters (`def f(a, b, /)`) are ordinary parameters for every analysis here
+        for n_ in ast.walk(tree):
+            if isinstance(n_, (ast.FunctionDef, ast.AsyncFunctionDef, ast.Lambda)) and n_.args.posonlyargs:
+                n_.args.args = list(n_.args.posonlyargs) + list(n_.args.args)
+                n_.args.posonlyargs = []
         m = Module(name=name, path=path, src=src, tree=tree, rel=os.path.relpath(path, self.repo))
         for st in tree.body:
             if isinstance(st, ast.Import):
@@ -219,8 +224,8 @@ class Facts:
                 # simple alias:  _clone = copy.deepcopy
                 if isinstance(v, (ast.Name, ast.Attribute)):
                     r = self.resolve_expr(m, v, _seen)
-                    if r[0] in ('fn', 'cls', 'ext', 'builtin', 'const'):
-                        return r
+                    if r[0] in ('fn', 'cls', 'ext', 'builtin', 'const', 'extmod', 'pkgmod'):
+                        return r            # (`_rng = random`: the module behind an indirection point, as bound by the module body)
             return ('modvar', m.name + '.' + name)
         if name in m.imports:
             return self.resolve_dotted(m.imports[name], _seen)
